@@ -33,6 +33,7 @@ GEN_TABLES = ("multiplicity", "raises")
 NESTING_BOUND = 150
 RATIO = 4.4  # calls(2n) <= RATIO * calls(n): quadratic growth (ratio 4) passes, 2^n does not
 HOLE = "§"
+TIME_RATIO = 40
 TIME_CAP = 45.0  # CPU seconds for one parse+rebuild of a generated text (the largest takes < 2 s on the unchanged tree)
 
 
@@ -387,6 +388,7 @@ def classify_exception(exc: BaseException) -> str:
 def check_family(ctx, probe: Probe, label: str, gen, depths, failures: list, summary: dict, sized=False):
     """gen(n) -> text. For consecutive (n, 2n) in depths: calls(2n) <= RATIO * calls(n)."""
     counts = {}
+    cpus: dict = {}
     for n in sorted(set(d for pair in depths for d in pair)):
         counts[n] = None
     row = {}
@@ -407,6 +409,7 @@ def check_family(ctx, probe: Probe, label: str, gen, depths, failures: list, sum
                 summary[label] = "not valid Nix for the bundled grammar"
                 return
             counts[n] = r["frames"]
+            cpus[n] = r["cpu"]
         base = counts[n]
         budget = int(RATIO * base) + 8
         text2 = gen(n2)
@@ -433,6 +436,22 @@ def check_family(ctx, probe: Probe, label: str, gen, depths, failures: list, sum
             summary[label] = row
             return
         counts[n2] = r2["frames"]
+        cpus[n2] = r2["cpu"]
+        # work outside the rebuild calls (parsing, gap handling) must stay polynomial too: doubling the
+        # depth may multiply the CPU time by a polynomial factor (x4 quadratic, x8 cubic), not by 2^n
+        if r2["cpu"] > 1.5 and r2["cpu"] > TIME_RATIO * max(cpus.get(n, 0.0), 0.01):
+            again = probe.run(text2, budget=budget)["cpu"]
+            if again > 1.5 and again > TIME_RATIO * max(cpus.get(n, 0.0), 0.01):
+                failures.append({
+                    "key": {"clause": "time", "family": label.split("/")[0]},
+                    "input": {"family": label, "n": n, "n2": n2, "cpu_n": cpus.get(n), "cpu_n2": min(again, r2["cpu"]),
+                              "text_n": gen(n) if len(gen(n)) < 3000 else gen(n)[:3000] + "…"},
+                    "what": f"family {label}: {cpus.get(n, 0):.3f} s CPU at depth {n}, {min(again, r2['cpu']):.2f} s at depth {n2} "
+                            f"(more than {TIME_RATIO}x for twice the depth) although the number of rebuild calls stays "
+                            f"within the polynomial budget: super-polynomial work outside rebuild (parse side)",
+                })
+                summary[label] = {**row, n2: f"cpu {min(again, r2['cpu']):.1f}s"}
+                return
         row[n] = base
         row[n2] = r2["frames"]
     summary[label] = row
